@@ -153,21 +153,21 @@ GOALS = {
     "G_SweepWithBuffered": "g_ttl", "G_LateApply": "g_ttl", "G_ExpiredUnswept": "g_ttl",
     "G_ClearWithBacklog": "g_clear", "G_ClearWhileBusy": "g_clear", "G_ClearWithPending": "g_clear1",
     "G_SameBucketRewrite": "g_ttl", "G_TTLDropped": "g_ttl", "G_SweepSkip": "g_ttl", "G_SetDuringSweepDel": "g_ttl",
-    "G_WaitBlockedInSend": "g_write", "G_TwoClears": "g_clear", "G_DelDuringVictims": "g_victim",
+    "G_WaitBlockedInSend": "g_write", "G_TwoClears": "g_clear", "G_SetDuringClear": "g_clear", "G_DelDuringVictims": "g_victim",
 }
 GOALS_FOR = {
-    "C02": ["G_UpdateOfEvicted", "G_DroppedUpdate", "G_ClearWhileBusy", "G_DelDuringVictims", "G_SetDuringSweepDel"],
+    "C02": ["G_UpdateOfEvicted", "G_DroppedUpdate", "G_ClearWhileBusy", "G_DelDuringVictims", "G_SetDuringSweepDel", "G_SetDuringClear"],
     "C03": ["G_RaiseCost", "G_TwoVictims", "G_DuplicateVictim", "G_UpdateOfEvicted"],
-    "C04": ["G_DroppedUpdate", "G_RejectWithVictims", "G_ClearWithBacklog", "G_ExpiredUnswept", "G_ClearWithPending"],
+    "C04": ["G_DroppedUpdate", "G_RejectWithVictims", "G_ClearWithBacklog", "G_ExpiredUnswept", "G_ClearWithPending", "G_SetDuringClear"],
     "C05": ["G_BlockedDel", "G_ClearWithBacklog", "G_DelDuringVictims", "G_WaitBlockedInSend"],
     "C06": ["G_LateApply1", "G_ExpiredUnswept1", "G_SameBucketRewrite1", "G_TTLDropped1"],
     "C07": ["G_ExpiredUnswept", "G_LateApply", "G_ExpiredUnswept1", "G_SameBucketRewrite1", "G_SameBucketRewrite", "G_TTLDropped1"],
     "C08": ["G_BlockedDel", "G_ClearWithBacklog", "G_ClearWhileBusy", "G_WaitBlockedInSend", "G_TwoClears"],
     "C09": ["G_RejectWithVictims", "G_TwoVictims", "G_DuplicateVictim"],
-    "C13": ["G_RejectWithVictims", "G_BlockedDel", "G_LateApply", "G_UpdateOfEvicted", "G_DelDuringVictims", "G_SweepSkip"],
+    "C13": ["G_RejectWithVictims", "G_BlockedDel", "G_LateApply", "G_UpdateOfEvicted", "G_DelDuringVictims", "G_SweepSkip", "G_SetDuringClear"],
     "C14": ["G_SweepWithBuffered", "G_LateApply", "G_ExpiredUnswept", "G_SameBucketRewrite", "G_TTLDropped", "G_SweepSkip", "G_SetDuringSweepDel"],
-    "C15": ["G_ClearWithBacklog", "G_ClearWhileBusy", "G_ExpiredUnswept", "G_ClearWithPending", "G_TwoClears"],
-    "C17": ["G_RejectWithVictims", "G_DroppedUpdate", "G_UpdateOfEvicted", "G_ClearWhileBusy", "G_ClearWithPending"],
+    "C15": ["G_ClearWithBacklog", "G_ClearWhileBusy", "G_ExpiredUnswept", "G_ClearWithPending", "G_TwoClears", "G_SetDuringClear"],
+    "C17": ["G_RejectWithVictims", "G_DroppedUpdate", "G_UpdateOfEvicted", "G_ClearWhileBusy", "G_ClearWithPending", "G_SetDuringClear"],
 }
 
 
